@@ -154,6 +154,35 @@ fn export_fn<'tcx>(tcx: TyCtxt<'tcx>, ldid: rustc_hir::def_id::LocalDefId) -> J 
             gnames.push(J::s(n));
         }
         o.push(("generics", J::Arr(gnames)));
+        // trait bounds on type parameters (own + parent): [{"param": name, "index": i, "trait": path}]
+        let mut bounds = Vec::new();
+        let preds = tcx.predicates_of(did).instantiate_identity(tcx);
+        for (clause, _) in preds {
+            let clause = clause.skip_norm_wip();
+            if let Some(tp) = clause.as_trait_clause() {
+                let tp = tp.skip_binder();
+                if let rustc_middle::ty::Param(p) = tp.self_ty().kind() {
+                    bounds.push(obj! {
+                        "param": J::s(p.name.to_string()),
+                        "index": J::n(p.index),
+                        "trait": J::s(tcx.def_path_str(tp.def_id())),
+                    });
+                }
+            }
+        }
+        o.push(("bounds", J::Arr(bounds)));
+        let mut gidx = Vec::new();
+        {
+            let mut g = Some(generics);
+            while let Some(gg) = g {
+                for p in &gg.own_params {
+                    gidx.push(obj! {"name": J::s(p.name.to_string()), "index": J::n(p.index),
+                        "kind": J::s(match p.kind { rustc_middle::ty::GenericParamDefKind::Lifetime => "lt", rustc_middle::ty::GenericParamDefKind::Type{..} => "ty", _ => "const" })});
+                }
+                g = gg.parent.map(|p| tcx.generics_of(p));
+            }
+        }
+        o.push(("generic_params", J::Arr(gidx)));
         o.push(("hir", hirdump::export_hir_fn(tcx, ldid)));
     } else {
         o.push(("closure_of", J::s(tcx.def_path_str(tcx.typeck_root_def_id(did)))));
